@@ -168,6 +168,13 @@ def messages(tier, rng):
         for pretty in (False, True):
             yield to_text(doc, pretty=pretty), dict(meta, cls=cls, pretty=pretty)
     yield to_text(gens.make_ro(['A', 'B'], timing='mixed')), {'cls': 'RunningOrder', 'pretty': False}
+    # roReplace whose fields carry surrounding white space, blank fields and fields with children only
+    from docs import ro_replace, E
+    d = ro_replace(5, [gens.new_story('R1')], slug='  padded slug \n')
+    d[3].insert(2, E('roChannel', text=' \t '))
+    d[3].insert(3, E('roEdStart', text='\n2020-01-01T10:00:00\n  '))
+    d[3].insert(4, E('roTrigger'))
+    yield to_text(d), {'cls': 'RunningOrderReplace', 'pretty': False}
 
 
 class Check:
